@@ -175,7 +175,8 @@ Merge(files) == [m \in AllNames(files) |-> CfgIn(files[FirstFile(files, m)], m)]
 (* how a module gets its hardware served: "polled" (own poll thread), "unpolled" (enablePoll = False:  *)
 (* a thread only for the configured writes), "onio" (unpolled, served by the poll thread of its io     *)
 (* module), "pio" (polled by the thread of its io module)                                             *)
-Kinds == {"polled", "unpolled", "onio", "pio"}
+(* "noclass": the configuration names a class that does not exist - such a module can only be rejected *)
+Kinds == {"polled", "unpolled", "onio", "pio", "noclass"}
 PolledKinds == {"polled", "pio"}
 KindIn(f, m) == LET j == CHOOSE j \in 1 .. Len(f) : f[j].m = m /\ \A j2 \in 1 .. j - 1 : f[j2].m # m IN f[j].kind
 KindMerge(files) == [m \in AllNames(files) |-> KindIn(files[FirstFile(files, m)], m)]
